@@ -100,6 +100,17 @@ def run(call):
             net = gross - s.calc(gross)
             if not close(inv.calc(net), gross):
                 bad.append(f"inverse does not map net back to gross: {inv.calc(net).tolist()} vs {gross.tolist()}")
+        elif op == "inverse_history":
+            # inverse(), an in-place change of the scale (and of a copy of it), inverse() again: always the inverse of the scale as it is
+            s.inverse()
+            cp = s.copy()
+            s.multiply_rates(0.5, inplace=True)
+            for which, sc in (("the scale after multiply_rates(0.5) in place", s), ("a copy taken before, scaled by scale_tax_scales(2)", cp.scale_tax_scales(2.0))):
+                gross = numpy.array(grid(sc))
+                net = gross - sc.calc(gross)
+                if not close(sc.inverse().calc(net), gross):
+                    bad.append(f"inverse of {which} does not map net back to gross: {sc.inverse().calc(net).tolist()} vs {gross.tolist()}")
+            untouched = False
         elif op == "average_round_trip":
             back = s.to_average().to_marginal()
             if not close(back.calc(bases), tax0):
